@@ -101,17 +101,40 @@ def norm_cont_rule(repo, R):
         elif not okcall:
             msg = f"the self-overlap is not Overlap.construct_array_contraction(self, self): {ast.unparse(inner)[:70]}"
     R.check(ok, "NORMCONT", f.site, "np.einsum('ijij->ij', Overlap(self, self))", msg, where=f.where(), expected="'ijij->ij' of Overlap.construct_array_contraction(self, self)")
-    pows = [n for n in ast.walk(fn) if isinstance(n, ast.AugAssign) and isinstance(n.op, ast.Pow)] + \
-           [n for n in ast.walk(fn) if isinstance(n, ast.BinOp) and isinstance(n.op, ast.Pow)]
-    exps = []
-    for n in pows:
-        v = n.value if isinstance(n, ast.AugAssign) else n.right
-        try:
-            exps.append(ast.literal_eval(v))
-        except Exception:
-            exps.append(None)
-    R.check(exps == [-0.5], "NORMCONT", f.site, "**= -0.5", "the contraction norm must be the self-overlap to the power -1/2",
-            where=f.where(), expected=[-0.5], found=exps)
+    # value flow: what is finally stored in self.norm_cont, as a function of the diagonal S of the self-overlap
+    from ..formula import Elem
+    S = sp.Symbol("S", positive=True)
+
+    class NC(Elem):
+        def assign(self, t, v, st):
+            if isinstance(t, ast.Attribute):
+                self.env[ast.unparse(t)] = v
+                return
+            Elem.assign(self, t, v, st)
+
+        def expr(self, e):
+            if isinstance(e, ast.Attribute) and ast.unparse(e) in self.env:
+                return self.env[ast.unparse(e)]
+            if isinstance(e, ast.Call) and ast.unparse(e.func) in ("np.einsum", "numpy.einsum"):
+                return S
+            if isinstance(e, ast.Call) and ast.unparse(e.func) in ("np.finfo", "numpy.finfo"):
+                return sp.Symbol("FINFO")
+            if isinstance(e, ast.Attribute) and isinstance(e.value, ast.Call) and ast.unparse(e.value.func) in ("np.finfo", "numpy.finfo"):
+                return sp.Symbol("finfo_" + e.attr, positive=True)
+            return Elem.expr(self, e)
+
+    E = NC(f, {"self": sp.Symbol("self")}, rule="NORMCONT")
+    for st in fn.body:
+        if isinstance(st, (ast.ImportFrom, ast.Import)):
+            continue
+        E.stmt(st)
+    val = E.env.get("self.norm_cont")
+    if val is None:
+        raise AnalysisError("NORMCONT", "assign_norm_cont does not store self.norm_cont", f.where())
+    R.check(sp.simplify(val - S ** sp.Rational(-1, 2)) == 0, "NORMCONT", f.site, "self.norm_cont == S ** -0.5",
+            "the contraction norm must be exactly the self-overlap to the power -1/2 (otherwise a contraction is no longer "
+            "normalised, and rescaling a coefficient column changes the function)",
+            where=f.where(), expected="S**(-1/2)", found=str(val))
 
 
 def run(repo, R):
